@@ -22,8 +22,65 @@ def is_set_expr(e, names):
     return False
 
 
+MUTATORS = {'append', 'extend', 'sort', 'reverse', 'pop', 'insert', 'remove', 'clear', 'update', 'add', 'discard', 'setdefault', 'popitem'}
+# mutable-by-design internals (sweep-line events, linked lists of the boolean / earcut code, the graph class): not part of the
+# value-object surface whose purity C14 states
+STATE_EXCLUDED = {'boolean.py', 'triangulation.py', 'network.py'}
+
+
+def state_writes(rel, tree):
+    """(receiver, klass, module, argument) write lists of one file"""
+    recv, klass, modst, argw = [], [], [], []
+    modnames = {t.id for n in tree.body if isinstance(n, ast.Assign) for t in n.targets if isinstance(t, ast.Name)}
+    classnames = {n.name for n in tree.body if isinstance(n, ast.ClassDef)}
+    funcs = [(None, n) for n in tree.body if isinstance(n, ast.FunctionDef)]
+    for c in [n for n in tree.body if isinstance(n, ast.ClassDef)]:
+        funcs += [(c.name, m) for m in c.body if isinstance(m, ast.FunctionDef)]
+    for cname, m in funcs:
+        deco = [ast.unparse(d) for d in m.decorator_list]
+        params = [a.arg for a in m.args.args + m.args.kwonlyargs] + ([m.args.vararg.arg] if m.args.vararg else [])
+        first = params[0] if (params and cname and 'staticmethod' not in deco) else None
+        pset = set(params) - ({first} if first else set())
+        rebound = set()
+        for n in ast.walk(m):
+            tgs = n.targets if isinstance(n, ast.Assign) else ([n.target] if isinstance(n, (ast.AugAssign, ast.For)) else [])
+            for t in tgs:
+                for tt in ast.walk(t):
+                    if isinstance(tt, ast.Name) and isinstance(tt.ctx, ast.Store):
+                        rebound.add(tt.id)
+        setter = any(d.endswith('.setter') for d in deco)
+        public = not m.name.startswith('_')
+        for n in ast.walk(m):
+            if isinstance(n, ast.Global):
+                modst.append((rel, cname or '', m.name, 'global ' + ','.join(n.names)))
+            tgs = n.targets if isinstance(n, (ast.Assign, ast.Delete)) else ([n.target] if isinstance(n, ast.AugAssign) else [])
+            writes = []
+            for t in tgs:
+                for tt in (t.elts if isinstance(t, ast.Tuple) else [t]):
+                    b = tt
+                    while isinstance(b, (ast.Subscript, ast.Attribute)):
+                        b = b.value
+                    if isinstance(b, ast.Name) and tt is not b:
+                        writes.append((b.id, ast.unparse(tt)[:60].replace('"', "'")))
+            if isinstance(n, ast.Call) and isinstance(n.func, ast.Attribute) and n.func.attr in MUTATORS and isinstance(n.func.value, ast.Name):
+                writes.append((n.func.value.id, ast.unparse(n.func)[:60].replace('"', "'")))
+            for base, txt in writes:
+                if base == first and first == 'self':
+                    if pset and m.name != '__init__' and not setter:
+                        recv.append((rel, cname or '', m.name, txt))
+                elif base == 'cls' or base in classnames:
+                    klass.append((rel, cname or '', m.name, txt))
+                elif base in pset and base not in rebound:
+                    if public:
+                        argw.append((rel, cname or '', m.name, base))
+                elif base in modnames and base not in rebound:
+                    modst.append((rel, cname or '', m.name, txt))
+    return recv, klass, modst, argw
+
+
 def gen_audit(root):
     clock, setit = [], []
+    recv_w, class_w, mod_w, arg_w = [], [], [], []
     base = os.path.join(root, 'ladybug_geometry')
     for dp, dn, fn in os.walk(base):
         for f in sorted(fn):
@@ -32,6 +89,9 @@ def gen_audit(root):
             p = os.path.join(dp, f)
             rel = os.path.relpath(p, base)
             tree = ast.parse(open(p).read())
+            if rel not in STATE_EXCLUDED:
+                a_, b_, c_, d_ = state_writes(rel, tree)
+                recv_w += a_; class_w += b_; mod_w += c_; arg_w += d_
             for func in [n for n in ast.walk(tree) if isinstance(n, (ast.FunctionDef, ast.Module))]:
                 set_names = set()
                 body_nodes = list(ast.walk(func)) if isinstance(func, ast.FunctionDef) else []
@@ -68,6 +128,18 @@ def gen_audit(root):
          'Definition clock_calls : list (string * string * string) := [%s].' % '; '.join('("%s", "%s", "%s")' % c for c in sorted(set(clock))),
          '', '(* direct iterations over a set (order would reach a result unless sorted afterwards): (file, function, iterable) *)',
          'Definition set_iterations : list (string * string * string) := [%s].' % '; '.join('("%s", "%s", "%s")' % c for c in sorted(set(setit)))]
+    q4 = lambda rows: '; '.join('("%s", "%s", "%s", "%s")' % r for r in sorted(set(rows)))
+    L += ['', '(* state kept between calls.  (file, class, member, target) of every assignment / in-place mutation ... *)',
+          '(* ... of the RECEIVER inside a member that takes parameters (constructors and property setters excepted): a value stored there',
+          '   depends on the arguments of that call and is seen by the next one *)',
+          'Definition receiver_writes_in_parameterised_members : list (string * string * string * string) := [%s].' % q4(recv_w),
+          '(* ... of a CLASS attribute (cls.x / ClassName.x) inside any function *)',
+          'Definition class_state_writes : list (string * string * string * string) := [%s].' % q4(class_w),
+          '(* ... of a MODULE-level name (global statements included) inside any function *)',
+          'Definition module_state_writes : list (string * string * string * string) := [%s].' % q4(mod_w),
+          '(* ... of an ARGUMENT (element / attribute assignment, in-place list method) of a public function, unless the name was re-bound',
+          '   to a fresh object first; the last component is the parameter name *)',
+          'Definition public_argument_writes : list (string * string * string * string) := [%s].' % q4(arg_w)]
     return '\n'.join(L) + '\n', {}
 
 
